@@ -23,3 +23,9 @@ add("C20", "exploration",
     "Every finite domain named by the property is enumerated completely (exhaustive: true) and compared with a directly written definition.",
     "BCD only defined for digits 0..9; period encoder definition as documented by the library.",
     "DESIGN.md 5/C20")
+
+add("C12", "exploration",
+    "reference-model monitor over the simulated BMC's request log (discovery use, proposal) + response mutator on the Open Session Response",
+    "Selection is enumerated exhaustively for all ordered preference lists of length 0..3 over a 6-suite universe against all 64 advertised subsets and compared with a small model; the answer side rewrites the algorithm triple (all values per axis, PRNG triples; thorough: all 64^3 for three proposals) and requires an error unless it equals the proposal.",
+    "Trusted base: refbmc's cipher suite record encoding (table 22-19) and handshake.",
+    "DESIGN.md 5/C12")
